@@ -38,6 +38,10 @@ func runC08(p *Prog, r *Report) {
 	transformEveryKeyRule(p, r, "C08.R7")
 	patternsUnmodifiedRule(p, r, "C08.R9")
 	armStoresRule(p, r, "C08.R6", "config.parseMethodLine", "enum:map", "enum:transform")
+	precedenceRule(p, r, "C08.R10", "Enum")
+	underlyingEnumRefusalRule(p, r, "C08.R12")
+	relativePackageRule(p, r, "C08.R13")
+	matchesCompleteRule(p, r, "C08.R11", "two detected enums are always converted by the name-driven switch, never by the plain basic conversion", "builder.(*Enum).Matches")
 }
 
 func c08R1(p *Prog, r *Report) {
